@@ -101,6 +101,26 @@ def run(ctx):
             a1, a2 = Address(s), Address((wc, bytes.fromhex(h)))
             if not (a1 == a2 and hash(a1) == hash(a2)):
                 ctx.fail("equal-addresses-hash-differently", s, {"render": c})
+    # history: ONE Address object rendered in every form, in random order, several times (repr() in between): each text
+    # must be what a fresh object renders (the stream above compared those with the model)
+    from pytoniq_core.boc.address import Address
+    fresh = {c: a for c, a in zip(render, impl_r)}
+    nh = 0
+    for wc in rng.sample(range(-128, 128), ctx.n(40, 256)):
+        forms = [c for c in render if c[0] == wc]
+        obj = Address((wc, bytes.fromhex(forms[0][1])))
+        seq = forms * 2
+        rng.shuffle(seq)
+        for c in seq:
+            nh += 1
+            if rng.random() < 0.3:
+                repr(obj); str(obj); hash(obj)
+            got = core.call_impl(lambda _: "ok " + hx(obj.to_str(bool(c[2]), bool(c[3]), bool(c[4]), bool(c[5]))), None)
+            if got != fresh[c]:
+                ctx.fail("render-depends-on-earlier-renders", f"to_str{c[2:]} on a re-used object: {got[:80]} vs fresh {fresh[c][:80]}",
+                         {"render": c, "history": True})
+                break
+    ctx.extra["reused_object_renderings"] = nh
     bad = 0
     for s, a in zip(subs, isub):
         if a.startswith("ok"):
